@@ -7,6 +7,7 @@ package h21
 
 import (
 	"go.nanomsg.org/mangos/v3"
+	_ "go.nanomsg.org/mangos/v3/transport/ipc"
 	_ "go.nanomsg.org/mangos/v3/transport/tcp"
 	"go.nanomsg.org/mangos/v3/zzverif/verif"
 	"go.nanomsg.org/mangos/v3/zzverif/vnet"
@@ -14,6 +15,15 @@ import (
 )
 
 const addr = "127.0.0.1:5555"
+const ipcPath = "/tmp/verif-h21.sock"
+
+// which stream transport a run uses: tcp or ipc (parameter "ipc")
+func scheme() (url string, key string, ipc bool) {
+	if verif.Param("ipc", 0) == 1 {
+		return "ipc://" + ipcPath, ipcPath, true
+	}
+	return "tcp://" + addr, addr, false
+}
 
 type hookrec struct {
 	attached, detached int
@@ -33,9 +43,10 @@ func listen(proto string, lab string) (mangos.Socket, *vnet.Listener, *hookrec) 
 			h.detached++
 		}
 	})
-	verif.Assert(sock.Listen("tcp://"+addr) == nil, lab+"/listen")
+	url, key, _ := scheme()
+	verif.Assert(sock.Listen(url) == nil, lab+"/listen")
 	verif.Quiesce()
-	return sock, vnet.N.Listeners[addr], h
+	return sock, vnet.N.Listeners[key], h
 }
 
 // VH21a_listener: first connection has one of several fates at handshake
@@ -100,13 +111,17 @@ func VH21a_listener() {
 	verif.Observe("wire", c2.Out)
 	if len(c2.Out) >= 8 {
 		wire := c2.Out[8:]
-		// BUS sends a 4-byte zero header in front of the body
-		verif.Assert(verif.BytesEq(wire, vnet.Frame(append([]byte{0, 0, 0, 0}, body...))) || verif.BytesEq(wire, vnet.Frame(body)), "C15/tcp/frame-bytes")
+		want := vnet.Frame(body)
+		if _, _, ipc := scheme(); ipc {
+			want = append([]byte{1}, want...) // the IPC mapping puts one byte 0x01 in front of every frame
+		}
+		verif.Assert(verif.BytesEq(wire, want), "C15/tcp/frame-bytes")
 	}
 	// pipe addresses describe the connection (C13)
 	if len(h.pipes) > 0 {
 		p := h.pipes[len(h.pipes)-1]
-		verif.Assert(p.Address() == "tcp://"+addr, "C13/tcp/pipe-address")
+		url, _, _ := scheme()
+		verif.Assert(p.Address() == url, "C13/tcp/pipe-address")
 		verif.Assert(p.Listener() != nil && p.Dialer() == nil, "C13/tcp/pipe-endpoint")
 		if v, err := p.GetOption(mangos.OptionRemoteAddr); err == nil {
 			verif.Assert(v != nil, "C13/tcp/remote-addr")
@@ -182,7 +197,8 @@ func VH21b_dialer() {
 		return c
 	}
 	verif.Assert(sock.SetOption(mangos.OptionDialAsynch, true) == nil, lab+"/asynch")
-	verif.Assert(sock.Dial("tcp://"+addr) == nil, lab+"/dial")
+	durl, _, _ := scheme()
+	verif.Assert(sock.Dial(durl) == nil, lab+"/dial")
 	verif.Quiesce()
 	// attempt 1 done; if it did not attach, a redial must be pending and attempt 2 follows
 	if outcomes[0] != 0 {
@@ -236,9 +252,10 @@ func VH21c_close_queue() {
 			<-gate // the application's hook is slow: the accept loop is busy
 		}
 	})
-	verif.Assert(sock.Listen("tcp://"+addr) == nil, lab+"/listen")
+	qurl, qkey, _ := scheme()
+	verif.Assert(sock.Listen(qurl) == nil, lab+"/listen")
 	verif.Quiesce()
-	L := vnet.N.Listeners[addr]
+	L := vnet.N.Listeners[qkey]
 	self := sock.Info().Peer
 	c0 := L.Connect("c0")
 	c0.PeerSend(vnet.SPHeader(self))
@@ -282,4 +299,53 @@ func VH21c_close_queue() {
 	}
 	verif.Assert(verif.LiveGoroutines() == 0, lab+"/goroutines-left-after-close")
 	verif.Reach("queue-closed")
+}
+
+
+// VH21d_busy: Listen on an address that is taken fails with ErrAddrInUse and
+// succeeds when retried on the same listener after the address was freed
+// (tcp: whatever the network reports; ipc: EADDRINUSE is mapped after the
+// stale-socket probe).
+func VH21d_busy() {
+	lab := "C12/stream-busy"
+	vnet.Install()
+	url, key, ipc := scheme()
+	blocker := vp.New("bus")
+	verif.Assert(blocker.Listen(url) == nil, lab+"/blocker")
+	verif.Quiesce()
+	sock := vp.New("bus")
+	l, err := sock.NewListener(url, nil)
+	verif.Assert(err == nil, lab+"/new-listener")
+	e1 := l.Listen()
+	verif.Assert(e1 != nil, lab+"/listen-on-busy-address-succeeded")
+	if ipc {
+		verif.Assert(e1 == mangos.ErrAddrInUse, lab+"/ipc-busy-address-error-kind")
+	}
+	// everything else on the socket and the listener still works
+	g := verif.Go("poke", func() {
+		l.GetOption(mangos.OptionMaxRecvSize)
+		l.SetOption(mangos.OptionMaxRecvSize, 100)
+		sock.GetOption(mangos.OptionMaxRecvSize)
+		l.Address()
+	})
+	verif.Quiesce()
+	verif.Assert(g.Done(), lab+"/listener-wedged-after-failed-listen")
+	blocker.Close()
+	verif.Quiesce()
+	e2 := l.Listen()
+	verif.Assert(e2 == nil, lab+"/listen-retry-after-address-freed-refused")
+	if e2 == nil {
+		L := vnet.N.Listeners[key]
+		if L == nil {
+			verif.Fail(lab + "/not-listening-after-retry")
+			return
+		}
+		c := L.Connect("c")
+		c.PeerSend(vnet.SPHeader(sock.Info().Peer))
+		verif.Quiesce()
+		verif.Assert(!c.Closed, lab+"/connection-refused-after-retry")
+	}
+	verif.Reach("busy-checked")
+	sock.Close()
+	verif.Quiesce()
 }
